@@ -3,6 +3,7 @@ CONSTANTS
   Progs <- QuickProgs
   NullCheckInDtor = TRUE
   MoveEmpties = TRUE
+  AssignSwaps = FALSE
 VIEW View
 INVARIANTS FalseUntilFirstDestroy PollTruth NoCrash
 PROPERTY OneWay
